@@ -95,6 +95,9 @@ pub struct StepObs {
     /// Complete CBOR items the agent put on the wire during the step.
     pub sent: Vec<Vec<u8>>,
     pub class: String,
+    /// How many of the event's messages the peer really injected (a reply that
+    /// waits for the agent's request is never sent if no request comes).
+    pub injected: usize,
     /// recv probe: the message handed back, re-encoded.
     pub returned: Option<Vec<u8>>,
 }
@@ -115,6 +118,8 @@ struct Peer {
     msgs: Vec<Vec<u8>>,
     cookie: u16,
     errors: Vec<String>,
+    /// messages injected so far
+    injected: usize,
 }
 
 async fn try_dequeue(ch: &mut AgentChannel) -> Option<Vec<u8>> {
@@ -239,6 +244,7 @@ async fn script<M: Fragment>(peer: &mut Peer, vars: &[Variant<M>], inj: &[usize]
         if peer.ch.enqueue_chunk(bytes).await.is_err() {
             peer.errors.push("inject failed".into());
         }
+        peer.injected += 1;
     }
     false
 }
@@ -250,12 +256,19 @@ enum Action<'a> {
 
 async fn step<S: Spec>(agent: &mut S::Agent, peer: &mut Peer, vars: &[Variant<S::Msg>], ops: &[OpDesc], act: Action<'_>) -> StepObs {
     let before = peer.msgs.len();
+    let injected_before = peer.injected;
     let mut returned = None;
     let mut cancelled = false;
     let ok = match act {
         Action::Op(ev) => {
             let d = &ops[ev.op];
-            let r = join_first(S::op(agent, ev.op), script(peer, vars, &ev.inj, d.wait, ev.cancel)).await;
+            let r = if d.wait || ev.cancel {
+                join_first(S::op(agent, ev.op), script(peer, vars, &ev.inj, d.wait, ev.cancel)).await
+            } else {
+                // everything the peer has to say is in flight before the operation starts
+                script(peer, vars, &ev.inj, false, false).await;
+                Some(S::op(agent, ev.op).await)
+            };
             match r {
                 Some(r) => r,
                 None => {
@@ -282,7 +295,7 @@ async fn step<S: Spec>(agent: &mut S::Agent, peer: &mut Peer, vars: &[Variant<S:
         }
     };
     peer.flush().await;
-    StepObs { ok, cancelled, sent: peer.msgs[before..].to_vec(), class: class_of_debug(&S::state(agent)), returned }
+    StepObs { ok, cancelled, sent: peer.msgs[before..].to_vec(), class: class_of_debug(&S::state(agent)), injected: peer.injected - injected_before, returned }
 }
 
 const FLUSH_PROTO: u16 = 0x7f0;
@@ -302,7 +315,7 @@ pub fn replay<S: Spec>(hist: &[Event], probe: Option<Probe>) -> Option<ReplayOut
         let vars = S::variants();
         let ops = S::ops();
         let mut agent = S::new(agent_ch);
-        let mut peer = Peer { ch: raw_ch, flush_tx, flush_rx, buf: vec![], pos: 0, msgs: vec![], cookie: 7, errors: vec![] };
+        let mut peer = Peer { ch: raw_ch, flush_tx, flush_rx, buf: vec![], pos: 0, msgs: vec![], cookie: 7, errors: vec![], injected: 0 };
         let init_class = class_of_debug(&S::state(&agent));
         let mut steps = vec![];
         for ev in &hist {
@@ -316,6 +329,72 @@ pub fn replay<S: Spec>(hist: &[Event], probe: Option<Probe>) -> Option<ReplayOut
     })
 }
 
+/// How many single (filler, marker) pairs get through to the agent's side
+/// after the history and a burst of `burst` filler chunks on the agent's
+/// protocol. The demultiplexer hands chunks to the agent through a bounded
+/// queue and stops reading the bearer when that queue is full, so the count
+/// tells how many chunks the agent has left unread in its queue. Always ends
+/// with the system blocked; the count is kept outside the driver.
+fn filler_pairs<S: Spec>(hist: &[Event], burst: usize, limit: usize) -> Option<usize> {
+    let mut rig = Rig::new(1 << 16);
+    let (cli, srv) = rig.pair(S::PROTO);
+    let (fc, fs) = rig.pair(FLUSH_PROTO);
+    let (agent_ch, raw_ch, flush_tx, flush_rx) = match S::ROLE {
+        Side::Client => (cli, srv, fc, fs),
+        _ => (srv, cli, fs, fc),
+    };
+    let hist = hist.to_vec();
+    let count: std::rc::Rc<std::cell::Cell<Option<usize>>> = Default::default();
+    let c2 = count.clone();
+    let _ = rig.drive(async move {
+        let vars = S::variants();
+        let ops = S::ops();
+        let mut agent = S::new(agent_ch);
+        let mut peer = Peer { ch: raw_ch, flush_tx, flush_rx, buf: vec![], pos: 0, msgs: vec![], cookie: 7, errors: vec![], injected: 0 };
+        for ev in &hist {
+            step::<S>(&mut agent, &mut peer, &vars, &ops, Action::Op(ev)).await;
+        }
+        for _ in 0..burst {
+            let _ = peer.ch.enqueue_chunk(vec![0xff]).await;
+        }
+        // marker in the peer -> agent direction, behind the burst
+        let _ = peer.flush_rx.enqueue_chunk(vec![0xf6]).await;
+        let _ = peer.flush_tx.dequeue_chunk().await;
+        c2.set(Some(0));
+        for n in 1..=limit {
+            let _ = peer.ch.enqueue_chunk(vec![0xff]).await;
+            let _ = peer.flush_rx.enqueue_chunk(vec![0xf6]).await;
+            let _ = peer.flush_tx.dequeue_chunk().await;
+            c2.set(Some(n));
+        }
+        // keep the agent (and its queue) alive until the system is quiescent
+        std::future::pending::<()>().await;
+        drop(agent);
+    });
+    count.get()
+}
+
+/// Capacity of the demultiplexer -> agent queue, measured on a fresh agent.
+pub fn queue_capacity<S: Spec>() -> usize {
+    static CAP: std::sync::OnceLock<usize> = std::sync::OnceLock::new();
+    *CAP.get_or_init(|| match filler_pairs::<S>(&[], 0, 4096) {
+        Some(n) if n > 8 && n < 4096 => n,
+        other => mc_core::report::machinery_failure(&format!("cannot calibrate the agent queue capacity: {other:?}")),
+    })
+}
+
+/// Number of chunks (= injected messages) the agent has NOT taken out of its
+/// queue after `hist`, given that at most `max_left` were injected in the
+/// last step and every earlier step left nothing.
+pub fn measure_leftover<S: Spec>(hist: &[Event], max_left: usize) -> Option<usize> {
+    let cap = queue_capacity::<S>();
+    let m = filler_pairs::<S>(hist, cap - max_left, max_left + 1)?;
+    if m > max_left {
+        return None;
+    }
+    Some(max_left - m)
+}
+
 // ---------------------------------------------------------------- judgement
 
 #[derive(Clone, Debug)]
@@ -324,6 +403,17 @@ pub struct Finding {
     pub state: String,
     pub variant: String,
     pub detail: String,
+    /// An operation that returned Err left a consumed, specification-valid
+    /// message unapplied: (table state before the operation, operation). Whether
+    /// the operation is meant for that state at all is decided once every
+    /// operation has been tried there.
+    pub helper: Option<(String, String)>,
+}
+
+impl Finding {
+    pub fn new(kind: &'static str, state: &str, variant: &str, detail: String) -> Finding {
+        Finding { kind, state: state.to_string(), variant: variant.to_string(), detail, helper: None }
+    }
 }
 
 #[derive(Default, Debug)]
@@ -334,171 +424,188 @@ pub struct Judged {
     pub next: Option<String>,
     pub send_ok: Vec<(String, String)>,
     pub recv_ok: Vec<(String, String)>,
+    /// consumed valid messages that visibly moved the state as the table says
+    /// although the operation reported an error (e.g. an acquire failure)
+    pub applied: Vec<(String, String)>,
 }
 
-/// Compare one executed step with the table. `t0` = table state before.
-pub fn judge(table: &Table, role: Side, t0: &str, opd: &OpDesc, inj: &[String], cancel: bool, obs: &StepObs) -> Judged {
+/// The verdict depends on how many injected messages the agent took out of
+/// its channel: measure it (see `measure_leftover`) and ask again.
+pub struct NeedConsumed;
+
+#[derive(Debug, Default)]
+struct Walk {
+    fin: String,
+    /// (from, message) of every applied transition, in order
+    steps: Vec<(String, String)>,
+    bad_sent: Option<(String, String)>,
+    /// consumed messages the table does not let the peer send where they were read
+    forbidden: Vec<(String, String)>,
+    /// consumed messages the table allows (they were applied)
+    valid: Vec<(String, String)>,
+    send_ok: Vec<(String, String)>,
+}
+
+/// Specification state after exactly: every message the agent put on the wire
+/// and the first `c` injected messages (those it consumed). Whoever has agency
+/// moves next. A consumed message the table allows moves the state; a consumed
+/// message it forbids (or one read while the peer has no agency) moves nothing.
+fn walk(table: &Table, role: Side, t0: &str, sent: &[String], inj: &[String], c: usize) -> Walk {
+    let mut w = Walk { fin: t0.to_string(), ..Default::default() };
+    let (mut si, mut ii) = (0usize, 0usize);
+    loop {
+        let t = w.fin.clone();
+        let ag = table.agency(&t);
+        if ag == role && si < sent.len() {
+            match table.next(&t, &sent[si]) {
+                Some(n) => {
+                    w.send_ok.push((t.clone(), sent[si].clone()));
+                    w.steps.push((t.clone(), sent[si].clone()));
+                    w.fin = n.clone();
+                    si += 1;
+                }
+                None => {
+                    w.bad_sent = Some((t, sent[si].clone()));
+                    break;
+                }
+            }
+        } else if ii < c {
+            match (ag == role.other(), table.next(&t, &inj[ii])) {
+                (true, Some(n)) => {
+                    w.valid.push((t.clone(), inj[ii].clone()));
+                    w.steps.push((t.clone(), inj[ii].clone()));
+                    w.fin = n.clone();
+                }
+                _ => w.forbidden.push((t.clone(), inj[ii].clone())),
+            }
+            ii += 1;
+        } else if si < sent.len() {
+            w.bad_sent = Some((t, sent[si].clone()));
+            break;
+        } else {
+            break;
+        }
+    }
+    w
+}
+
+/// Compare one executed step with the table. `t0` = table state before,
+/// `consumed` = number of injected messages the agent took (None = not measured).
+pub fn judge(table: &Table, role: Side, t0: &str, opd: &OpDesc, inj: &[String], cancel: bool, obs: &StepObs, consumed: Option<usize>) -> Result<Judged, NeedConsumed> {
     let mut j = Judged::default();
     let mut sent: Vec<String> = vec![];
     for raw in &obs.sent {
         match refcbor::parse_one(raw).map_err(|e| format!("{e:?}")).and_then(|n| table.wire_name(&n)) {
             Ok(n) => sent.push(n),
             Err(e) => {
-                j.findings.push(Finding { kind: "send", state: t0.into(), variant: "?".into(), detail: format!("{}: put an unrecognisable message on the wire ({e}): {}", opd.name, hex::encode(raw)) });
-                return j;
+                j.findings.push(Finding::new("send", t0, "?", format!("{}: put an unrecognisable message on the wire ({e}): {}", opd.name, hex::encode(raw))));
+                return Ok(j);
             }
         }
     }
     let ok = obs.ok.is_ok();
-    // walk the table: whoever has agency moves next
-    let mut t = t0.to_string();
-    let mut chain: Vec<String> = vec![t.clone()];
-    let mut steps: Vec<(String, String)> = vec![]; // (from, msg) of chain[i+1]
-    let (mut si, mut ii) = (0usize, 0usize);
-    let mut min_idx = 0usize;
-    let mut bad_sent: Option<(String, String)> = None;
-    let mut rejected_at: Option<usize> = None;
-    let mut exam: Vec<String> = vec![];
-    loop {
-        let ag = table.agency(&t);
-        if ag == role {
-            if si < sent.len() {
-                match table.next(&t, &sent[si]) {
-                    Some(n) => {
-                        j.send_ok.push((t.clone(), sent[si].clone()));
-                        steps.push((t.clone(), sent[si].clone()));
-                        t = n.clone();
-                        chain.push(t.clone());
-                        si += 1;
-                        min_idx = chain.len() - 1;
-                    }
-                    None => {
-                        bad_sent = Some((t.clone(), sent[si].clone()));
-                        break;
-                    }
-                }
-            } else {
-                break;
+    let c = match consumed {
+        Some(c) => c.min(inj.len()),
+        None if inj.is_empty() => 0,
+        None => {
+            if ok {
+                return Err(NeedConsumed);
             }
-        } else if ag == role.other() {
-            if ii < inj.len() {
-                exam.push(t.clone());
-                match table.next(&t, &inj[ii]) {
-                    Some(n) => {
-                        steps.push((t.clone(), inj[ii].clone()));
-                        t = n.clone();
-                        chain.push(t.clone());
-                        ii += 1;
-                    }
-                    None => {
-                        rejected_at = Some(ii);
-                        break;
-                    }
-                }
-            } else {
-                if si < sent.len() {
-                    bad_sent = Some((t.clone(), sent[si].clone()));
-                }
-                break;
+            let sig = |c: usize| {
+                let w = walk(table, role, t0, &sent, inj, c);
+                (table.class_of(&w.fin).to_string(), w.forbidden.is_empty(), w.valid.is_empty(), w.bad_sent.is_some())
+            };
+            let s0 = sig(0);
+            if (1..=inj.len()).any(|c| sig(c) != s0) {
+                return Err(NeedConsumed);
             }
-        } else {
-            if si < sent.len() {
-                bad_sent = Some((t.clone(), sent[si].clone()));
-            }
-            break;
+            0
         }
+    };
+    let w = walk(table, role, t0, &sent, inj, c);
+    j.send_ok = w.send_ok.clone();
+    if let Some((s, m)) = &w.bad_sent {
+        j.findings.push(Finding::new(
+            "send",
+            s,
+            m,
+            format!("{} put {m} on the wire in state {s} (agency: {}), which the specification does not let the {} send there", opd.name, table.agency(s).name(), role.name()),
+        ));
+        return Ok(j);
     }
-    if let Some((s, m)) = bad_sent {
-        j.findings.push(Finding {
-            kind: "send",
-            state: s.clone(),
-            variant: m.clone(),
-            detail: format!("{} put {m} on the wire in state {s} (agency: {}), which the specification does not let the {} send there", opd.name, table.agency(&s).name(), role.name()),
-        });
-        return j;
-    }
-    // an operation that returned Ok has read at least its first message
-    if ok && opd.max_recv >= 1 && !inj.is_empty() {
-        if rejected_at == Some(0) {
-            j.findings.push(Finding {
-                kind: "recv",
-                state: exam[0].clone(),
-                variant: inj[0].clone(),
-                detail: format!("{} accepted {} in state {}, which the specification does not let the peer send there", opd.name, inj[0], exam[0]),
-            });
-            return j;
+    if ok {
+        if let Some((s, m)) = w.forbidden.first() {
+            j.findings.push(Finding::new(
+                "recv",
+                s,
+                m,
+                format!("{} returned Ok having consumed {m} in state {s} (agency: {}), which the specification does not let the peer send there", opd.name, table.agency(s).name()),
+            ));
+            return Ok(j);
         }
-        if !exam.is_empty() && rejected_at.is_none() && inj.len() == 1 {
-            j.recv_ok.push((exam[0].clone(), inj[0].clone()));
-        }
-        if exam.is_empty() {
-            // Ok although the table never gave the peer the floor: the agent read a message while it had agency
-            j.findings.push(Finding {
-                kind: "recv",
-                state: t.clone(),
-                variant: inj[0].clone(),
-                detail: format!("{} returned Ok with {} injected although the peer never had agency", opd.name, inj[0]),
-            });
-            return j;
-        }
+        j.recv_ok = w.valid.clone();
     }
     // a helper whose first act is to send M must not refuse where M is allowed
     if let Some(m) = opd.sends_first {
         if table.may_send(role, t0, m) && !ok && !obs.cancelled && sent.is_empty() {
-            j.findings.push(Finding {
-                kind: "send",
-                state: t0.into(),
-                variant: m.into(),
-                detail: format!("{} refused ({}) to send {m} in state {t0}, where the specification lets the {} send it", opd.name, obs.ok.clone().unwrap_err(), role.name()),
-            });
-            return j;
+            j.findings.push(Finding::new(
+                "send",
+                t0,
+                m,
+                format!("{} refused ({}) to send {m} in state {t0}, where the specification lets the {} send it", opd.name, obs.ok.clone().unwrap_err(), role.name()),
+            ));
+            return Ok(j);
         }
     }
-    let clean = rejected_at.is_none() && ii == inj.len() && si == sent.len();
-    let class_ok = |s: &str| table.class_of(s) == obs.class;
-    if (ok || (obs.cancelled && cancel)) && clean {
-        let last = chain.last().unwrap().clone();
-        if class_ok(&last) {
-            j.next = Some(last);
-        } else {
-            let (fs, fm) = steps.last().cloned().unwrap_or((t0.to_string(), format!("op:{}", opd.name)));
-            j.findings.push(Finding {
-                kind: "next-state",
-                state: fs.clone(),
-                variant: fm.clone(),
-                detail: format!(
-                    "{} {}: exchange {:?} from {t0} ends in {last} by the specification, agent state is {}",
-                    opd.name,
-                    if ok { "returned Ok" } else { "was cancelled after its request" },
-                    steps.iter().map(|x| x.1.as_str()).collect::<Vec<_>>(),
-                    obs.class
-                ),
-            });
+    let exchange: Vec<&str> = w.steps.iter().map(|x| x.1.as_str()).collect();
+    if table.class_of(&w.fin) == obs.class {
+        if !ok && w.forbidden.is_empty() {
+            if let Some((from, m)) = w.valid.last() {
+                if table.class_of(from) != obs.class {
+                    j.applied.push((from.clone(), m.clone()));
+                }
+            }
         }
+        if (ok || (obs.cancelled && cancel)) && c == inj.len() && w.forbidden.is_empty() {
+            j.next = Some(w.fin.clone());
+        }
+        return Ok(j);
+    }
+    let outcome = if ok {
+        "returned Ok".to_string()
+    } else if obs.cancelled {
+        "was dropped after its request".to_string()
     } else {
-        // error, or an exchange that stopped early: the state must be the
-        // specification's state after some prefix of the exchange that
-        // includes everything the agent sent; a rejected message moves nothing
-        if !chain[min_idx..].iter().any(|s| class_ok(s)) {
-            let variant = match rejected_at {
-                Some(i) => inj[i].clone(),
-                None => format!("op:{}", opd.name),
-            };
-            j.findings.push(Finding {
-                kind: if ok { "next-state" } else { "state-after-reject" },
-                state: t.clone(),
-                variant,
-                detail: format!(
-                    "{} returned {:?}; specification states compatible with the exchange: {:?}, agent state is {}",
-                    opd.name,
-                    obs.ok,
-                    &chain[min_idx..],
-                    obs.class
-                ),
-            });
-        }
+        format!("returned {:?}", obs.ok)
+    };
+    if !ok && !w.forbidden.is_empty() {
+        let (s, m) = w.forbidden[0].clone();
+        j.findings.push(Finding::new(
+            "state-after-reject",
+            &s,
+            &m,
+            format!(
+                "{} {outcome} after consuming {c} of the injected {:?}; {m} is not allowed in {s} and must move nothing: the specification state after the sent and consumed messages (applied {:?}) is {}, agent state is {}",
+                opd.name, inj, exchange, w.fin, obs.class
+            ),
+        ));
+        return Ok(j);
     }
-    j
+    let (fs, fm) = w.steps.last().cloned().unwrap_or((t0.to_string(), format!("op:{}", opd.name)));
+    let mut f = Finding::new(
+        "next-state",
+        &fs,
+        &fm,
+        format!(
+            "{} {outcome}; it sent {:?} and consumed {c} of the injected {:?}: the exchange {:?} from {t0} ends in {} by the specification, agent state is {}",
+            opd.name, sent, inj, exchange, w.fin, obs.class
+        ),
+    );
+    if !ok && !obs.cancelled && !w.valid.is_empty() {
+        f.helper = Some((t0.to_string(), opd.name.to_string()));
+    }
+    j.findings.push(f);
+    Ok(j)
 }
 
 // ------------------------------------------------------------- exploration
@@ -519,6 +626,15 @@ pub struct Acc {
     pub edges: BTreeSet<(String, String, String)>,
     pub outcomes: BTreeSet<String>,
     pub machinery: Vec<String>,
+    /// consumption measurements made
+    pub measured: u64,
+    /// (table state, operation) pairs where the operation returned Ok for some injection
+    pub ok_at: BTreeSet<(String, String)>,
+    pub applied_acc: BTreeSet<(String, String)>,
+    /// findings whose class depends on `ok_at`: key -> (finding, shortest history, count)
+    pub pending: BTreeMap<String, (Finding, Vec<Event>, u64)>,
+    /// stronger observations than the property demands: key -> (what, shortest history, count, order)
+    pub diagnostics: BTreeMap<String, (String, Value, u64, (usize, String))>,
 }
 
 pub struct AgentReport {
@@ -543,15 +659,19 @@ fn hist_json<S: Spec>(h: &[Event]) -> Value {
 }
 
 fn record<S: Spec>(acc: &Mutex<Acc>, table: &Table, f: &Finding, hist: &[Event], extra: Value) {
+    record_n::<S>(acc, table, f, hist, extra, 1, None)
+}
+
+fn record_n<S: Spec>(acc: &Mutex<Acc>, table: &Table, f: &Finding, hist: &[Event], extra: Value, n: u64, fp: Option<String>) {
     // the state enters the fingerprint as the implementation's state class
-    let fp = format!("agent:{}:{}:{}:{}:{}", table.name, S::ROLE.name(), table.class_of(&f.state), f.variant, f.kind);
+    let fp = fp.unwrap_or_else(|| format!("agent:{}:{}:{}:{}:{}", table.name, S::ROLE.name(), table.class_of(&f.state), f.variant, f.kind));
     let case = json!({"protocol": S::LABEL, "role": S::ROLE.name(), "history": hist_json::<S>(hist), "then": extra, "table_state": f.state, "message": f.variant, "kind": f.kind});
     let mut a = acc.lock().unwrap();
     let order = (hist.len(), format!("{}{hist:?}{extra}", S::LABEL));
     let what = format!("{} {}: {}", S::LABEL, S::ROLE.name(), f.detail);
     match a.findings.get_mut(&fp) {
         Some(e) => {
-            e.count += 1;
+            e.count += n;
             if order < e.order {
                 e.order = order;
                 e.what = what;
@@ -559,7 +679,7 @@ fn record<S: Spec>(acc: &Mutex<Acc>, table: &Table, f: &Finding, hist: &[Event],
             }
         }
         None => {
-            a.findings.insert(fp, FindingRec { order, what, case, count: 1 });
+            a.findings.insert(fp, FindingRec { order, what, case, count: n });
         }
     }
 }
@@ -610,7 +730,7 @@ fn run_history<S: Spec>(table: &Table, acc: &Mutex<Acc>, h: &[Event]) -> Outcome
     let ops = S::ops();
     let out = match catch(|| replay::<S>(h, None)) {
         Err(p) => {
-            let f = Finding { kind: "panic", state: "-".into(), variant: p.site(), detail: format!("panicked: {} at {}", p.message, p.location) };
+            let f = Finding { helper: None, kind: "panic", state: "-".into(), variant: p.site(), detail: format!("panicked: {} at {}", p.message, p.location) };
             record::<S>(acc, table, &f, h, json!(null));
             acc.lock().unwrap().replays += 1;
             return Outcome::Violation;
@@ -630,14 +750,35 @@ fn run_history<S: Spec>(table: &Table, acc: &Mutex<Acc>, h: &[Event]) -> Outcome
     }
     let mut t = table.initial.clone();
     if table.class_of(&t) != out.init_class {
-        let f = Finding { kind: "next-state", state: t.clone(), variant: "op:new".into(), detail: format!("a new agent is in state {}, the specification starts in {t}", out.init_class) };
+        let f = Finding { helper: None, kind: "next-state", state: t.clone(), variant: "op:new".into(), detail: format!("a new agent is in state {}, the specification starts in {t}", out.init_class) };
         record::<S>(acc, table, &f, &[], json!(null));
         return Outcome::Violation;
     }
     for (i, (ev, obs)) in h.iter().zip(out.steps.iter()).enumerate() {
-        let inj: Vec<String> = ev.inj.iter().map(|i| vars[*i].name.to_string()).collect();
-        let j = judge(table, S::ROLE, &t, &ops[ev.op], &inj, ev.cancel, obs);
+        let inj: Vec<String> = ev.inj.iter().take(obs.injected).map(|i| vars[*i].name.to_string()).collect();
         let last = i + 1 == h.len();
+        // prefix steps were clean edges when first judged: everything injected was consumed
+        let first = judge(table, S::ROLE, &t, &ops[ev.op], &inj, ev.cancel, obs, if last { None } else { Some(inj.len()) });
+        let j = match first {
+            Ok(j) => j,
+            Err(NeedConsumed) => {
+                let left = catch(|| measure_leftover::<S>(h, inj.len()));
+                let mut a = acc.lock().unwrap();
+                a.replays += 1;
+                a.measured += 1;
+                drop(a);
+                match left {
+                    Ok(Some(l)) => match judge(table, S::ROLE, &t, &ops[ev.op], &inj, ev.cancel, obs, Some(inj.len() - l)) {
+                        Ok(j) => j,
+                        Err(_) => unreachable!(),
+                    },
+                    other => {
+                        acc.lock().unwrap().machinery.push(format!("{} {:?}: consumption measurement failed: {:?}", S::LABEL, h, other.map_err(|p| p.message)));
+                        return Outcome::Skip;
+                    }
+                }
+            }
+        };
         if !last {
             match j.next {
                 Some(n) => t = n,
@@ -654,6 +795,7 @@ fn run_history<S: Spec>(table: &Table, acc: &Mutex<Acc>, h: &[Event]) -> Outcome
                 a.cancelled_ops += 1;
             } else if obs.ok.is_ok() {
                 a.ok_ops += 1;
+                a.ok_at.insert((t.clone(), ops[ev.op].name.to_string()));
             } else {
                 a.err_ops += 1;
             }
@@ -662,6 +804,9 @@ fn run_history<S: Spec>(table: &Table, acc: &Mutex<Acc>, h: &[Event]) -> Outcome
             }
             for x in &j.recv_ok {
                 a.recv_acc.insert(x.clone());
+            }
+            for x in &j.applied {
+                a.applied_acc.insert(x.clone());
             }
             let oc = match (&obs.ok, obs.cancelled) {
                 (_, true) => "cancelled".to_string(),
@@ -672,7 +817,24 @@ fn run_history<S: Spec>(table: &Table, acc: &Mutex<Acc>, h: &[Event]) -> Outcome
         }
         if !j.findings.is_empty() {
             for f in &j.findings {
-                record::<S>(acc, table, f, h, json!(null));
+                if f.helper.is_some() {
+                    let key = format!("{:?}|{}|{}", f.helper, f.state, f.variant);
+                    let mut a = acc.lock().unwrap();
+                    match a.pending.get_mut(&key) {
+                        Some(e) => {
+                            e.2 += 1;
+                            if (h.len(), format!("{h:?}")) < (e.1.len(), format!("{:?}", e.1)) {
+                                e.0 = f.clone();
+                                e.1 = h.to_vec();
+                            }
+                        }
+                        None => {
+                            a.pending.insert(key, (f.clone(), h.to_vec(), 1));
+                        }
+                    }
+                } else {
+                    record::<S>(acc, table, f, h, json!(null));
+                }
             }
             return Outcome::Violation;
         }
@@ -709,7 +871,7 @@ fn probe_state<S: Spec>(table: &Table, acc: &Mutex<Acc>, h: &[Event], t: &str, c
         drop(a);
         match r {
             Err(pn) => {
-                let f = Finding { kind: "panic", state: t.into(), variant: pn.site(), detail: format!("panicked: {} at {}", pn.message, pn.location) };
+                let f = Finding { helper: None, kind: "panic", state: t.into(), variant: pn.site(), detail: format!("panicked: {} at {}", pn.message, pn.location) };
                 record::<S>(acc, table, &f, h, json!(format!("{p:?}")));
                 None
             }
@@ -730,13 +892,14 @@ fn probe_state<S: Spec>(table: &Table, acc: &Mutex<Acc>, h: &[Event], t: &str, c
                         acc.lock().unwrap().machinery.push(format!("{} send_message({}) Ok but wire shows {:?}", S::LABEL, v.name, on_wire));
                     }
                     if !accepted && !on_wire.is_empty() {
-                        let f = Finding { kind: "send", state: t.into(), variant: v.name.into(), detail: format!("send_message({}) failed in state {t} but put {:?} on the wire", v.name, on_wire) };
+                        let f = Finding { helper: None, kind: "send", state: t.into(), variant: v.name.into(), detail: format!("send_message({}) failed in state {t} but put {:?} on the wire", v.name, on_wire) };
                         record::<S>(acc, table, &f, h, then.clone());
                     }
                     let allowed = table.may_send(role, t, v.name);
                     cells.lock().unwrap().entry((t.to_string(), v.name.to_string())).or_default().0 = Some(accepted);
                     if accepted != allowed {
                         let f = Finding {
+                            helper: None,
                             kind: "send",
                             state: t.into(),
                             variant: v.name.into(),
@@ -753,6 +916,7 @@ fn probe_state<S: Spec>(table: &Table, acc: &Mutex<Acc>, h: &[Event], t: &str, c
                     }
                     if obs.class != class {
                         let f = Finding {
+                            helper: None,
                             kind: if accepted { "next-state" } else { "state-after-reject" },
                             state: t.into(),
                             variant: v.name.into(),
@@ -787,6 +951,7 @@ fn probe_state<S: Spec>(table: &Table, acc: &Mutex<Acc>, h: &[Event], t: &str, c
                         // implementation cannot tell apart (tx-monitor Busy kinds)
                         let kind_only = accepted && table.states.keys().any(|s| s != t && table.class_of(s) == table.class_of(t) && table.may_send(role.other(), s, v.name));
                         let f = Finding {
+                            helper: None,
                             kind: if kind_only { "recv-kind" } else { "recv" },
                             state: t.into(),
                             variant: v.name.into(),
@@ -801,7 +966,7 @@ fn probe_state<S: Spec>(table: &Table, acc: &Mutex<Acc>, h: &[Event], t: &str, c
                         record::<S>(acc, table, &f, h, then.clone());
                     }
                     if obs.class != class && !accepted {
-                        let f = Finding { kind: "state-after-reject", state: t.into(), variant: v.name.into(), detail: format!("recv_message() rejected {} ({:?}) but moved the agent from {class} to {}", v.name, obs.ok, obs.class) };
+                        let f = Finding { helper: None, kind: "state-after-reject", state: t.into(), variant: v.name.into(), detail: format!("recv_message() rejected {} ({:?}) but moved the agent from {class} to {}", v.name, obs.ok, obs.class) };
                         record::<S>(acc, table, &f, h, then);
                     }
                 }
@@ -813,7 +978,7 @@ fn probe_state<S: Spec>(table: &Table, acc: &Mutex<Acc>, h: &[Event], t: &str, c
         match run(Probe::Recv(None)) {
             None => {}
             Some(None) => {
-                let f = Finding { kind: "recv", state: t.into(), variant: "-".into(), detail: format!("recv_message() in state {t}, where the {} has agency, waits instead of failing", role.name()) };
+                let f = Finding { helper: None, kind: "recv", state: t.into(), variant: "-".into(), detail: format!("recv_message() in state {t}, where the {} has agency, waits instead of failing", role.name()) };
                 record::<S>(acc, table, &f, h, json!({"recv_message": true}));
             }
             Some(Some(o)) => {
@@ -822,7 +987,7 @@ fn probe_state<S: Spec>(table: &Table, acc: &Mutex<Acc>, h: &[Event], t: &str, c
                     acc.lock().unwrap().machinery.push(format!("{} recv_message at {t} returned Ok with nothing in flight", S::LABEL));
                 }
                 if obs.class != class {
-                    let f = Finding { kind: "state-after-reject", state: t.into(), variant: "-".into(), detail: format!("recv_message() failed ({:?}) but moved the agent from {class} to {}", obs.ok, obs.class) };
+                    let f = Finding { helper: None, kind: "state-after-reject", state: t.into(), variant: "-".into(), detail: format!("recv_message() failed ({:?}) but moved the agent from {class} to {}", obs.ok, obs.class) };
                     record::<S>(acc, table, &f, h, json!({"recv_message": true}));
                 }
             }
@@ -876,7 +1041,7 @@ pub fn run_agent<S: Spec>(thorough: bool) -> AgentReport {
         _ => mc_core::report::machinery_failure(&format!("{}: cannot build the agent", S::LABEL)),
     };
     if table.class_of(&table.initial) != init.init_class {
-        let f = Finding { kind: "next-state", state: table.initial.clone(), variant: "op:new".into(), detail: format!("a new agent is in state {}, the specification starts in {}", init.init_class, table.initial) };
+        let f = Finding { helper: None, kind: "next-state", state: table.initial.clone(), variant: "op:new".into(), detail: format!("a new agent is in state {}, the specification starts in {}", init.init_class, table.initial) };
         record::<S>(&acc, &table, &f, &[], json!(null));
     }
     let init_key = format!("{}|{}", init.init_class, table.initial);
@@ -932,17 +1097,47 @@ pub fn run_agent<S: Spec>(thorough: bool) -> AgentReport {
             let is = if S::PUB_SEND { cell.0.unwrap_or(false) } else { send_acc };
             let ir = if S::PUB_RECV { cell.1.unwrap_or(false) } else { recv_acc };
             if !S::PUB_SEND && ts && !is {
-                let f = Finding { kind: "send", state: t.clone(), variant: v.name.into(), detail: format!("no public operation of the agent gets {} onto the wire in state {t}, where the specification lets the {} send it", v.name, role.name()) };
+                let f = Finding { helper: None, kind: "send", state: t.clone(), variant: v.name.into(), detail: format!("no public operation of the agent gets {} onto the wire in state {t}, where the specification lets the {} send it", v.name, role.name()) };
                 record::<S>(&acc_m, &table, &f, h, json!("every operation tried"));
             }
             if !S::PUB_RECV && tr && !ir {
-                let f = Finding { kind: "recv", state: t.clone(), variant: v.name.into(), detail: format!("no public operation of the agent accepts {} in state {t}, where the specification lets the peer send it", v.name) };
+                let f = Finding { helper: None, kind: "recv", state: t.clone(), variant: v.name.into(), detail: format!("no public operation of the agent accepts {} in state {t}, where the specification lets the peer send it", v.name) };
                 record::<S>(&acc_m, &table, &f, h, json!("every operation tried"));
             }
             let b = |x: bool| if x { '1' } else { '0' };
             row.insert(v.name.to_string(), json!(format!("send spec/impl {}{} recv spec/impl {}{}", b(ts), b(is), b(tr), b(ir))));
         }
         matrix.insert(t.clone(), Value::Object(row));
+    }
+    // An operation returned Err, had consumed a specification-valid message and
+    // did not apply it. If the operation works from that state for some
+    // injection it is the helper for that state and the exchange was complete
+    // and legal: violation. If no injection makes it succeed there while another
+    // public operation does accept that message there, the *call* is what was
+    // refused (error, state unchanged, as the property asks for everything
+    // else); that the message is gone from the channel is logged, not demanded.
+    let pending: Vec<(Finding, Vec<Event>, u64)> = acc_m.lock().unwrap().pending.values().cloned().collect();
+    for (mut f, h, n) in pending {
+        let (t0, opn) = f.helper.clone().unwrap();
+        let (applicable, handled_elsewhere) = {
+            let a = acc_m.lock().unwrap();
+            (a.ok_at.contains(&(t0.clone(), opn.clone())), a.recv_acc.contains(&(f.state.clone(), f.variant.clone())) || a.applied_acc.contains(&(f.state.clone(), f.variant.clone())))
+        };
+        if applicable || !handled_elsewhere {
+            record_n::<S>(&acc_m, &table, &f, &h, json!(null), n, None);
+        } else {
+            f.kind = "valid-message-dropped-by-wrong-helper";
+            let key = format!("agent:{}:{}:{}:{}", table.name, S::ROLE.name(), opn, f.kind);
+            let what = format!("{} {}: {} [no injection makes {opn} succeed from {t0}; another operation accepts {} there]", S::LABEL, S::ROLE.name(), f.detail, f.variant);
+            let mut a = acc_m.lock().unwrap();
+            let e = a.diagnostics.entry(key).or_insert((what.clone(), hist_json::<S>(&h), 0, (h.len(), format!("{h:?}"))));
+            e.2 += n;
+            if (h.len(), format!("{h:?}")) < e.3 {
+                e.0 = what;
+                e.1 = hist_json::<S>(&h);
+                e.3 = (h.len(), format!("{h:?}"));
+            }
+        }
     }
     let acc = acc_m.into_inner().unwrap();
     let unreached: Vec<String> = table.states.keys().filter(|s| !reached.contains(*s)).cloned().collect();
